@@ -56,6 +56,87 @@ def has_key(interp, mapping, key):
     return mapping.lookup(interp, key)[0] if hasattr(mapping, "lookup") else key in mapping
 
 
+def serial_send_units(prop):
+    """LUBA / SCI send(): what the caller gets back for every outcome on the wire.  Shared by C16 (pairing and typing)
+    and C18 (the gateway's packets decode to the backward frame / no answer they denote)."""
+    U = []
+
+    def unit(name, runner, **kw):
+        U.append(Unit(prop + "/" + name, prop, None, None, use=USE, width=72, kind="custom", runner=runner,
+                      max_paths=200000, **kw))
+    # ------------------------------------------------------------ LUBA / SCI send(): silent bus, answer, stale answers
+    for gw in ("luba", "sci"):
+        for vname, twice, rc in FLAG_VARIANTS:
+            for nstale, in_tx in ((0, False), (1, False), (2, False), (1, True), (2, True)):
+                def r_ser(ctx, interp, fn, gw=gw, twice=twice, rc=rc, nstale=nstale, in_tx=in_tx):
+                    world = World(ctx, interp)
+                    install(interp, world)
+                    cmd, fr = abstract_command(ctx, 16, twice, rc)
+                    stale = [ctx.int("stale%d" % i, 0, 255) for i in range(nstale)]
+                    answer = ctx.int("answer", 0, 255)
+                    answered = ctx.bool("unit_answers")
+                    if gw == "luba":
+                        proto, kids = luba_proto(ctx, world, LS.WAIT_START, [None] * 24, None, 0)
+                        PSET = Attrs(interp, proto)
+                        PSET["_tx_lock"] = world.lock("tx")
+                        PSET["transport"] = world.transport()
+                        PSET["_queue_tx_conf"] = world.queue(
+                            "txconf", provider=lambda q: q.items.append(LUBA.LubaMsgTxConf(tx_id=ctx.fresh_int("txid", 0, 255), message=None)))
+                        drvcls, send = SER.DriverLubaRs232, SER.DriverLubaRs232.send
+                    else:
+                        proto, kids = sci_proto(ctx, world, SS.WAIT_STATUS, [None] * 5)
+                        PSET = Attrs(interp, proto)
+                        PSET["_tx_lock"] = world.lock("tx")
+                        PSET["transport"] = world.transport()
+                        PSET["_device_settings"] = SER.DriverSCIRS232.SCIRS232DeviceSettings(True, False, True)
+                        PSET["_queue_rx_info"] = world.queue(
+                            "info", items=[SER.DriverSCIRS232.SCIRS232DeviceReply(id=0, code=0) for _ in range(nstale)],
+                            provider=lambda q: q.items.append(SER.DriverSCIRS232.SCIRS232DeviceReply(id=ctx.fresh_int("id", 0, 15), code=0)))
+                        drvcls, send = SER.DriverSCIRS232, SER.DriverSCIRS232.send
+                    rawq = PSET["_queue_rx_raw_dali"]
+                    rawq.items.extend(stale)
+
+                    def bus_answers(q):
+                        # the unit's answer to THIS command arrives after the command was written
+                        if world.writes and interp.test(answered) and not getattr(q, "_answered", False):
+                            q._answered = True
+                            q.items.append(answer)
+                    rawq.provider = bus_answers
+                    tlock = world.lock("transaction")
+                    tlock.held = in_tx      # inside a sequence the caller (run_sequence) already holds the transaction lock
+                    drv = ctx.new(drvcls, _connected=world.event(True, "connected"), transaction_lock=tlock,
+                                  _protocol=proto)
+                    out = world.run(send, drv, cmd, in_transaction=in_tx)
+                    if out[0] == "blocked":
+                        return
+                    ctx.cover()
+                    timeouts = [e for e in world.log if e[0] == "wait_for"]
+                    if out[0] == "raise":
+                        # a confirmation / connection timeout is the documented failure mode
+                        ctx.prove("only-timeouts-raise", out[1].__name__ in ("TimeoutError",), detail="raised %s at %s" % (out[1].__name__, out[3]))
+                        return
+                    if rc is None:
+                        check_response(ctx, interp, out, rc, None)
+                        return
+                    ok = out[1] is not None and type_of(out[1]) is rc
+                    ctx.prove("result-is-the-commands-own-response-type", ok,
+                              detail="returned %s for a command whose response class is %s" % (type_of(out[1]).__name__ if out[1] is not None else None, rc.__name__))
+                    if not ok:
+                        return
+                    raw = interp.get_attr(out[1], "raw_value")
+                    if raw is None:
+                        # 'nothing' is right only if the unit stayed silent or the driver stopped waiting (a time-out)
+                        ctx.prove("an-answer-that-arrived-in-time-is-not-reported-as-silence",
+                                  Or(Not(answered), world.timeouts > 0),
+                                  detail="the unit answered 0x%s and no wait timed out, yet the result wraps nothing" % (answer,))
+                        return
+                    ctx.prove("answer-is-this-commands-own-never-a-stale-one", And(answered, raw._data == answer),
+                              detail="stale answers queued before the command: %d" % nstale)
+                unit("%s/send/%s/stale=%d%s" % (gw, vname, nstale, "/in-transaction" if in_tx else ""), r_ser)
+
+    return U
+
+
 def units(tier):
     CF.WMAX = 64
     U = []
@@ -193,72 +274,127 @@ def units(tier):
                 check_response(ctx, interp, out, rc, ("garbled", value))
         unit("hasseb/_send_raw/%s" % vname, r_has)
 
-    # ------------------------------------------------------------ LUBA / SCI send(): silent bus, answer, stale answers
-    for gw in ("luba", "sci"):
-        for vname, twice, rc in FLAG_VARIANTS:
-            for nstale, in_tx in ((0, False), (1, False), (2, False), (1, True), (2, True)):
-                def r_ser(ctx, interp, fn, gw=gw, twice=twice, rc=rc, nstale=nstale, in_tx=in_tx):
-                    world = World(ctx, interp)
-                    install(interp, world)
-                    cmd, fr = abstract_command(ctx, 16, twice, rc)
-                    stale = [ctx.int("stale%d" % i, 0, 255) for i in range(nstale)]
-                    answer = ctx.int("answer", 0, 255)
-                    answered = ctx.bool("unit_answers")
-                    if gw == "luba":
-                        proto, kids = luba_proto(ctx, world, LS.WAIT_START, [None] * 24, None, 0)
-                        PSET = Attrs(interp, proto)
-                        PSET["_tx_lock"] = world.lock("tx")
-                        PSET["transport"] = world.transport()
-                        PSET["_queue_tx_conf"] = world.queue(
-                            "txconf", provider=lambda q: q.items.append(LUBA.LubaMsgTxConf(tx_id=ctx.fresh_int("txid", 0, 255), message=None)))
-                        drvcls, send = SER.DriverLubaRs232, SER.DriverLubaRs232.send
-                    else:
-                        proto, kids = sci_proto(ctx, world, SS.WAIT_STATUS, [None] * 5)
-                        PSET = Attrs(interp, proto)
-                        PSET["_tx_lock"] = world.lock("tx")
-                        PSET["transport"] = world.transport()
-                        PSET["_device_settings"] = SER.DriverSCIRS232.SCIRS232DeviceSettings(True, False, True)
-                        PSET["_queue_rx_info"] = world.queue(
-                            "info", items=[SER.DriverSCIRS232.SCIRS232DeviceReply(id=0, code=0) for _ in range(nstale)],
-                            provider=lambda q: q.items.append(SER.DriverSCIRS232.SCIRS232DeviceReply(id=ctx.fresh_int("id", 0, 15), code=0)))
-                        drvcls, send = SER.DriverSCIRS232, SER.DriverSCIRS232.send
-                    rawq = PSET["_queue_rx_raw_dali"]
-                    rawq.items.extend(stale)
+    U.extend(serial_send_units("C16"))
 
-                    def bus_answers(q):
-                        # the unit's answer to THIS command arrives after the command was written
-                        if world.writes and interp.test(answered) and not getattr(q, "_answered", False):
-                            q._answered = True
-                            q.items.append(answer)
-                    rawq.provider = bus_answers
-                    tlock = world.lock("transaction")
-                    tlock.held = in_tx      # inside a sequence the caller (run_sequence) already holds the transaction lock
-                    drv = ctx.new(drvcls, _connected=world.event(True, "connected"), transaction_lock=tlock,
-                                  _protocol=proto)
-                    out = world.run(send, drv, cmd, in_transaction=in_tx)
-                    if out[0] == "blocked":
-                        return
-                    ctx.cover()
-                    timeouts = [e for e in world.log if e[0] == "wait_for"]
-                    if out[0] == "raise":
-                        # a confirmation / connection timeout is the documented failure mode
-                        ctx.prove("only-timeouts-raise", out[1].__name__ in ("TimeoutError",), detail="raised %s at %s" % (out[1].__name__, out[3]))
-                        return
-                    if rc is None:
-                        check_response(ctx, interp, out, rc, None)
-                        return
-                    ok = out[1] is not None and type_of(out[1]) is rc
-                    ctx.prove("result-is-the-commands-own-response-type", ok,
-                              detail="returned %s for a command whose response class is %s" % (type_of(out[1]).__name__ if out[1] is not None else None, rc.__name__))
-                    if not ok:
-                        return
-                    raw = interp.get_attr(out[1], "raw_value")
-                    if raw is None:
-                        return      # silence (the unit did not answer, or the answer timed out)
-                    ctx.prove("answer-is-this-commands-own-never-a-stale-one", And(answered, raw._data == answer),
-                              detail="stale answers queued before the command: %d" % nstale)
-                unit("%s/send/%s/stale=%d%s" % (gw, vname, nstale, "/in-transaction" if in_tx else ""), r_ser)
+    # ------------------------------------------------------------ daliserver client on a persistent connection
+    from checks.c18 import SockModel, real_commands, REAL_NAMES
+    from dali.driver import daliserver as DS
+    for name in REAL_NAMES:
+        def r_ds(ctx, interp, fn, name=name):
+            cmd = real_commands(ctx, interp)[name]()
+            sock = SockModel(ctx)
+            srv = ctx.new(DS.DaliServer, _s=sock, _target=("localhost", 1), _multiple_frames_per_connection=True)
+            try:
+                interp.call(interp.get_attr(srv, "send"), (cmd,), {})
+            except RaiseEx:
+                pass
+            ctx.cover()
+            # daliserver answers every request with one reply; a reply left unread on the connection would be taken for
+            # the answer of the NEXT command
+            ctx.prove("every-reply-is-read-before-returning", len(sock.replies) == len(sock.sent),
+                      detail="%d requests sent, %d replies read" % (len(sock.sent), len(sock.replies)))
+            ctx.prove("never-reads-a-reply-that-was-not-requested", sock.reads_ahead == 0)
+        unit("daliserver/persistent-connection/%s" % name, r_ds)
     return U
+
+
+# ----------------------------------------------------------------------------- ATX LED hat (BOUNDED stand-in)
+def extra_checks(tier, seed):
+    """The ATX LED hat driver is line-oriented string code running under a thread lock with time.sleep: outside the
+    engine.  BOUNDED, never counted as proved: the real SyncDaliHatDriver.send is run natively against a scripted serial
+    port for every combination of command kind x own outcome x stale line x conflict marker listed below."""
+    import itertools
+    import logging
+    import threading
+    import time
+    import unittest.mock as mock
+    from dali.driver import atxled as ATX
+    from dali.gear import general as G
+    from dali.device import general as D
+    from dali import address as A
+    t0 = time.time()
+
+    class Port:
+        """serial port of the hat: lines that are already waiting when the command is written are STALE (late answers of
+        an earlier command); the hat's answer to this command becomes readable only after the write"""
+
+        def __init__(self, stale, replies):
+            self.pending = list(stale)
+            self.replies = [list(r) for r in replies]       # one list of lines per transmission
+            self.written = []
+
+        def write(self, data):
+            self.written.append(bytes(data))
+            if self.replies:
+                self.pending.extend(self.replies.pop(0))
+
+        def read_until(self, sep=b"\n"):
+            return self.pending.pop(0) if self.pending else b""
+
+        def reset_input_buffer(self):
+            self.pending = []
+
+    commands = [("query16", lambda: G.QueryActualLevel(A.Short(5))), ("yesno16", lambda: G.QueryControlGearPresent(A.Short(5))),
+                ("plain16", lambda: G.Off(A.Short(5))), ("dapc", lambda: G.DAPC(A.Short(5), 128)),
+                ("query24", lambda: D.QueryDeviceStatus(A.DeviceShort(3)))]
+    values = [0x00, 0x55, 0xFF] if tier != "thorough" else list(range(256))
+    own = [("silent", [], None)] + [("no", [b"N\n"], None)] + [("J%02X" % v, [b"J%02X\n" % v], v) for v in values]
+    stale_sets = [(), (b"J33\n",), (b"N\n",), (b"J33\n", b"N\n")]
+    conflicts = [(), (b"Z\n",), (b"X\n",)]
+    bad = []
+    n = 0
+    for (cname, mk), (oname, lines, val), stale, conflict in itertools.product(commands, own, stale_sets, conflicts):
+        cmd = mk()
+        n += 1
+        if conflict == (b"X\n",):
+            replies, want_val = [[conflict[0]]], None          # X: the hat gave up; the bus outcome is 'nothing'
+        elif conflict:
+            replies, want_val = [[conflict[0]], lines], val    # Z: conflict, the driver sends again and gets the answer
+        else:
+            replies, want_val = [lines], val
+        port = Port(stale, replies)
+        drv = ATX.SyncDaliHatDriver.__new__(ATX.SyncDaliHatDriver)
+        drv.LOG = logging.getLogger("atx-check")
+        drv.LOG.disabled = True
+        drv.lock = threading.RLock()
+        drv.buffer = []
+        drv.conn = port
+        case = "%s/%s/stale=%d/conflict=%s" % (cname, oname, len(stale), conflict[0][:1].decode() if conflict else "-")
+        try:
+            with mock.patch.object(ATX.time, "sleep", lambda s: None):
+                r = drv.send(cmd)
+        except Exception as e:      # noqa: BLE001
+            bad.append((case, "send raised %s: %s" % (type(e).__name__, e)))
+            continue
+        rc = cmd.response
+        if rc is None:
+            if r is not None:
+                bad.append((case, "a command without answer returned %r" % (r,)))
+            continue
+        if type(r) is not rc:
+            bad.append((case, "returned %s, expected %s" % (type(r).__name__, rc.__name__)))
+            continue
+        raw = r.raw_value
+        if want_val is None:
+            if raw is not None:
+                bad.append((case, "bus outcome 'nothing' but the result wraps %r (a stale line?)" % (raw,)))
+        elif raw is None or raw.error or raw.as_integer != want_val:
+            bad.append((case, "own answer 0x%02X but the result wraps %r" % (want_val, raw)))
+    kinds = {}
+    for case, why in bad:
+        k = why.split(":")[0].split(" but ")[0][:60]
+        kinds.setdefault(k, []).append(case)
+    out = []
+    groups = [("send-never-raises", lambda w: w.startswith("send raised")),
+              ("no-answer-expected-returns-none", lambda w: w.startswith("a command without answer")),
+              ("result-typed-and-wraps-this-commands-own-answer", lambda w: not w.startswith(("send raised", "a command without")))]
+    for name, sel in groups:
+        mine = [(c, w) for c, w in bad if sel(w)]
+        out.append({"name": "C16/bounded/atx-led-hat/" + name, "status": "failed" if mine else "discharged", "cases": n,
+                    "kind": "bounded", "seconds": (time.time() - t0) / 3,
+                    "detail": "; ".join("%s: %s" % cw for cw in mine[:4]),
+                    "witness": {"first": mine[:1]}, "replay": {"failing_cases": mine[:40], "total_failing": len(mine)}})
+    return out
 
 
 # checks whose proof units establish the callee contracts applied here (re-verified by this check, see main.dependency_units)
@@ -269,16 +405,20 @@ META = {
     "bounds": {"commands": "abstract commands covering plain / send-twice / numeric / yes-no / generic answers with symbolic frames",
                "Tridonic": "every sequence of up to 4 well-formed reports (transmission echo, 8-bit value, no frame, framing "
                "error, loss of the gateway) for the command's sequence number; routing for two commands in flight",
-               "hasseb": "every status byte 1..3 and value, loss of the gateway", "LUBA/SCI": "stand-alone sends and sends inside a transaction (late answer of an earlier command of the same sequence); 0..2 stale answers queued before "
+               "hasseb": "every status byte 1..3 and value, loss of the gateway", "ATX LED hat (BOUNDED, not proved)": "5 command kinds (numeric / yes-no query, plain, DAPC, 24-bit query) x own outcome "
+               "(silent, N, J00/J55/JFF; thorough: all 256) x 0..2 stale lines waiting before the command x conflict markers "
+               "(none / Z / X), run natively against a scripted serial port; send-twice commands are not in the enumeration "
+               "(the hat's repeat protocol could not be confirmed offline)", "LUBA/SCI": "stand-alone sends and sends inside a transaction (late answer of an earlier command of the same sequence); 0..2 stale answers queued before "
                "the command, unit answering or silent, any timeout"},
     "assumptions": [
         "asyncio / os / transport primitives through the assumed contracts of pyvc/aio.py; reports are delivered by the "
         "environment exactly while the coroutine waits (sequentialised view of the reader callback)",
         "'each caller receives the answer belonging to its own command' across concurrently running tasks rests on the "
         "routing invariant proved here plus the mutual exclusion of asyncio.Lock / Semaphore (assumed, not proved)",
-        "daliserver reply decoding is proved in C18 (daliserver/send units); the ATX LED hat line protocol is not covered "
-        "(string protocol with sleeps: outside the engine)",
+        "daliserver reply decoding is proved in C18 (daliserver/send units); the ATX LED hat driver (line-oriented string "
+        "code under a thread lock with sleeps: outside the engine) is decided by a BOUNDED native enumeration only, labelled as "
+        "such and never counted as proved",
     ],
-    "undecided_clauses": ["pairing under real concurrency (all report orderings with 1-3 callers)", "ATX LED hat driver"],
+    "undecided_clauses": ["pairing under real concurrency (all report orderings with 1-3 callers)"],
     "trusted_base": ["pyvc/aio.py", "specs/gateways.py"],
 }
